@@ -36,7 +36,8 @@ def fam_exactly_once(w: World) -> None:
     """One to three documents, one after another, to one long-lived dispatcher; each judged on its own."""
     ch = w.ch
     n_deliveries = 1 + ch.draw(3, 'deliveries')
-    infos = [S.gen_document(ch, exotic=True, allow_junk=False, tok_prefix=f'd{d}_' if d else '', reentrant=True)
+    infos = [S.gen_document(ch, exotic=True, allow_junk=False, tok_prefix=f'd{d}_' if d else '', reentrant=True,
+                             dup_notification=True)
              for d in range(n_deliveries)]
     n = max((len(i['doc']) if isinstance(i['doc'], list) else 1) for i in infos)
     cfg = S.draw_config(ch, n)
